@@ -1,6 +1,7 @@
 package checks
 
 import (
+	"bytes"
 	"encoding/json"
 	"fmt"
 	"os"
@@ -10,6 +11,7 @@ import (
 	"strings"
 	"sync"
 	"sync/atomic"
+	"time"
 
 	"github.com/paulsonkoly/chess-3/search"
 
@@ -20,7 +22,7 @@ import (
 // C08 — search is reproducible and never overspends its node budget.
 
 type c08Case struct {
-	Kind     string      `json:"kind"` // "twin", "soft-hard", "concurrent"
+	Kind     string      `json:"kind"`     // "twin", "soft-hard", "concurrent"
 	Requests []searchReq `json:"requests"` // the sequence of searches on one instance; the last one is the failing one
 	HardLast bool        `json:"hard_twin,omitempty"`
 }
@@ -137,11 +139,11 @@ func init() {
 
 type c08Game struct {
 	noCounters bool
-	start searchReq
-	soft  int
-	depth int
-	plies int
-	tt    int
+	start      searchReq
+	soft       int
+	depth      int
+	plies      int
+	tt         int
 }
 
 func c08Games(r *ev.Run) []c08Game {
@@ -283,6 +285,41 @@ func runC08(r *ev.Run) {
 			}
 		}
 	})
+
+	// the hard budget also holds while pondering (the engine neither counts nor aborts then): a pondering search with
+	// budget N, stopped later from outside, never reports more than N nodes (the assertion does not depend on timing)
+	var ponderRuns atomic.Int64
+	ev.Parallel(len(roots), func(worker, item int) {
+		if item%6 != int(r.Seed)%6 || r.Expired() {
+			return
+		}
+		for _, budget := range []int{0, 9, 150} {
+			h, err := newHistory(roots[item].FEN, nil)
+			if err != nil {
+				return
+			}
+			stop := make(chan struct{})
+			ph := make(chan time.Time, 1)
+			var cnt search.Counters
+			var out bytes.Buffer
+			done := make(chan struct{})
+			go func() {
+				search.New(32000).Go(h.B, search.WithOutput(&out), search.WithCounters(&cnt), search.WithDepth(3), search.WithNodes(budget), search.WithPonderHit(ph), search.WithStop(stop))
+				close(done)
+			}()
+			time.Sleep(3 * time.Millisecond)
+			close(stop)
+			<-done
+			ponderRuns.Add(1)
+			if cnt.Nodes > budget {
+				r.Fail("budget-exceeded-while-pondering", c08Case{Kind: "ponder-budget", Requests: []searchReq{{FEN: roots[item].FEN, Depth: 3, Nodes: budget}}}, "%s: pondering search with a hard budget of %d nodes counted %d", roots[item].FEN, budget, cnt.Nodes)
+			}
+			if infos, _ := parseInfo(out.String()); len(infos) > 0 && infos[len(infos)-1].Nodes > budget {
+				r.Fail("budget-exceeded-while-pondering", c08Case{Kind: "ponder-budget", Requests: []searchReq{{FEN: roots[item].FEN, Depth: 3, Nodes: budget}}}, "%s: pondering search with a hard budget of %d nodes reports %d", roots[item].FEN, budget, infos[len(infos)-1].Nodes)
+			}
+		}
+	})
+	r.Set("pondering_budget_runs", ponderRuns.Load())
 
 	// schedules: the same games on free-running goroutines, transcripts must equal the sequential ones
 	conc := c08Concurrent(r, games, transcripts)
